@@ -85,7 +85,7 @@ CHECKS.update({
           'size <= N, contents == reference sequence truncated to N keeping the prefix (ghost index), and the ELEM protocol (construct only raw slots, assign/read only live ones, '
           'destroy exactly once, every slot raw at destruction). Loops are closed by injected invariants.',
   'ref': 'C14', 'technique': 'cxx2c extraction + CBMC loop contracts; ghost element-lifetime protocol; symbolic capacity',
-  'note': 'Trusted: the cxx2c rewrite rules (placement new / destructor calls / std::move onto the ELEM_* functions), the std::move algorithm stub. Induction over operation histories '
+  'note': 'Bounded stand-in on the REAL class: units/C14/native/static_vector_model_probe.cpp runs igris::static_vector<T,4> against a truncated std::vector model with a lifetime-tracking T (199 state x operation pairs) under ASan/UBSan in every check. Trusted: the cxx2c rewrite rules (placement new / destructor calls / std::move onto the ELEM_* functions), the std::move algorithm stub. Induction over operation histories '
           'is a meta-argument. emplace_back with other than one argument and iterator types other than const T* are not covered.'},
  'C18': {
   'text': 'hex helpers are proved loop-free over their full domains (alphabet 0-9A-F, both directions of every uintN pair); hexascii_encode/decode and the std::string overload by loop '
@@ -144,7 +144,7 @@ CHECKS.update({
           'protocol (nothing is assigned to, moved from or read while unconstructed or destroyed; every element destroyed exactly once: a released block holds no live element and no block is '
           'leaked), all accesses inside exact-size blocks. Loops are closed by injected invariants; obligations are grouped bounds / lifetime / value / frame.',
   'ref': 'C02', 'technique': 'cxx2c extraction + CBMC loop contracts; ghost element-lifetime protocol checked at an arbitrary tracked slot per block; allocator and std algorithm stubs with ISO contracts',
-  'note': 'Bounded stand-in on the REAL class (not the extraction): units/C02/native/vector_model_probe.cpp runs igris::vector<T> against std::vector with a lifetime-tracking T under ASan/UBSan in every check (1050 state x operation pairs) - it decides changes that leave the extractor dialect. NOT claimed: flat_map / flat_set / compat std map/set (std::find_if/upper_bound with capturing lambdas over std::vector<std::pair>: outside the extractor) and the second igris::vector '
+  'note': 'Bounded stand-in on the REAL class (not the extraction): units/C02/native/vector_model_probe.cpp runs igris::vector<T> against std::vector with a lifetime-tracking T under ASan/UBSan in every check (1200 state x operation pairs) - it decides changes that leave the extractor dialect. NOT claimed: flat_map / flat_set / compat std map/set (std::find_if/upper_bound with capturing lambdas over std::vector<std::pair>: outside the extractor) and the second igris::vector '
           'copy in std_portable.h. insert(pos,first,last) is a bounded stand-in (<= 1 element quick, 2 thorough) on top of the proved insert(pos,value); rbegin/rend are std::reverse_iterator '
           '(trusted). Trusted: libstdc++ algorithm / allocator stubs (spec/c02_std_algo.h), cxx2c rules. Exceptions are outside the model (throw -> ghost flag).'},
 })
@@ -178,7 +178,7 @@ CHECKS.update({
           'component-wise reference and creader (cursor inside [strt, fini], nothing read at fini) are proved on exact-size, non-terminated buffers of symbolic length with injected loop '
           'invariants. The C++ split / split_cmdargs / trim / replace scanning loops are extracted mechanically and co-simulated with a reference tokeniser through a ghost token recorder.',
   'ref': 'C19', 'technique': 'CBMC loop contracts on exact-size non-terminated buffers; reference tokeniser / path automata co-simulation; cxx2c extraction with ghost token recorder',
-  'note': 'NOT claimed: join (std::vector<std::string> loop is outside the extractor) and "join is split\'s inverse". Bounds: shell command tables <= 3 entries, argcmax in {0,1,2,3}, '
+  'note': 'Bounded stand-in on the REAL C++ code: units/C19/native/string_utils_probe.cpp runs igris::replace / igris::split against byte-wise references (54602 calls, NUL bytes included, exact-size buffers) under ASan/UBSan in every check. NOT claimed: join (std::vector<std::string> loop is outside the extractor) and "join is split\'s inverse". Bounds: shell command tables <= 3 entries, argcmax in {0,1,2,3}, '
           'path_is_simple converse up to length 7 (labelled). Recorded native-only observation (no unit): creader_readline line semantics (one-character lines, unterminated last line).'},
 })
 WIP = 'no proof unit built yet in this session (work in progress; see DESIGN.md for the planned contracts)'
